@@ -18,10 +18,15 @@ type verifInitClient struct {
 	oks      []bool
 	maxFails int
 	fails    int
+	flavours bool // failures may look like context errors although the caller's context is alive, and the other way round
+	gaveUp   bool // a request has failed while the caller's context had ended: construction must return now
 }
 
 func (c *verifInitClient) Get(ctx context.Context, name string) (*api.SecretValue, error) {
 	ghostLog("svc.request")
+	if c.gaveUp {
+		ghostLog("svc.request.after.giving.up")
+	}
 	ok := true
 	if c.fails < c.maxFails {
 		if nondetBool("svc.fail") {
@@ -48,7 +53,19 @@ func (c *verifInitClient) Get(ctx context.Context, name string) (*api.SecretValu
 			}
 		}
 		if cerr := ctx.Err(); cerr != nil {
+			c.gaveUp = true
+			if c.flavours {
+				if nondetBool("svc.error.hides.context.error") {
+					return nil, verifErrInjected // a client whose errors do not wrap the context's
+				}
+			}
 			return nil, &verifCtxErr{err: cerr}
+		}
+		if c.flavours {
+			if nondetBool("svc.error.is.own.timeout") {
+				// the client's own per-request timeout: looks like a context error, but the caller's context is alive
+				return nil, &verifCtxErr{err: context.DeadlineExceeded}
+			}
 		}
 		return nil, verifErrInjected
 	}
@@ -96,10 +113,11 @@ func verifC10NewStore(kinds []int, n int) {
 			}
 		}
 	}
-	client := &verifInitClient{svc: svc, maxFails: param("fails")}
+	client := &verifInitClient{svc: svc, maxFails: param("fails"), flavours: true}
 
 	// cache: none / unreadable / empty / a document (valid or not) / arbitrary bytes
 	var cache *verifCache
+	garbageClass := 0
 	var doc map[string]*cachedSecret
 	kind := kinds[nondetChoice("cache.kind", len(kinds))]
 	switch kind {
@@ -122,7 +140,9 @@ func verifC10NewStore(kinds []int, n int) {
 		bs, _ := json.Marshal(doc)
 		cache = &verifCache{content: bs, mayFail: true}
 	case 4:
-		cache = &verifCache{content: nondetSeq("cache.garbage"), mayFail: true}
+		garbage := nondetSeq("cache.garbage")
+		garbageClass = jsonClass(garbage) // 0 only if the bytes are exactly one JSON value: an oracle independent of how NewStore decodes
+		cache = &verifCache{content: garbage, mayFail: true}
 	}
 	ctx := &verifCtx{tag: "init", hasDeadline: nondetBool("ctx.hasDeadline"), deadlineNS: nondetMathI64("ctx.deadline"), cancelled: nondetBool("ctx.cancelled")}
 	cfg := StoreConfig{Client: client, Secrets: append([]string(nil), names...), // NewStore sorts and compacts this slice in place
@@ -153,9 +173,13 @@ func verifC10NewStore(kinds []int, n int) {
 	for _, nm := range names {
 		anyEmpty = or(anyEmpty, nm == "")
 	}
+	assert("no-request-after-a-failure-with-the-callers-context-ended", ghostCount("svc.request.after.giving.up") == 0)
 	if err != nil {
 		if anyEmpty {
 			assert("empty-name-rejected-before-any-request", len(client.names) == 0)
+		} else {
+			// retrying goes on until all succeed or the CALLER's context ends, whatever the failures look like
+			assert("gives-up-only-when-the-callers-context-has-ended", ctx.expired())
 		}
 		reach("end-error")
 		return
@@ -188,6 +212,7 @@ func verifC10NewStore(kinds []int, n int) {
 				if ghostCount("json.decode.failed") > 0 {
 					assert("undecodable-cache-ignored-as-a-whole", fetched)
 				}
+				assert("cache-that-is-not-exactly-one-json-document-is-ignored-as-a-whole", implies(garbageClass != 0, fetched))
 				if !fetched {
 					continue
 				}
@@ -222,14 +247,18 @@ func verifC10NewStore(kinds []int, n int) {
 			reach("end-from-cache")
 		}
 	}
-	if kind == 4 && ghostCount("json.decode.failed") > 0 {
-		assert("undecodable-cache-contributes-no-names", mapAll(s.active.m, func(nm string, _ *cachedSecret) bool {
+	if kind == 4 {
+		onlyDeclared := mapAll(s.active.m, func(nm string, _ *cachedSecret) bool {
 			declared := false
 			for _, d := range names {
 				declared = or(declared, d == nm)
 			}
 			return declared
-		}))
+		})
+		if ghostCount("json.decode.failed") > 0 {
+			assert("undecodable-cache-contributes-no-names", onlyDeclared)
+		}
+		assert("cache-that-is-not-exactly-one-json-document-contributes-no-names", implies(garbageClass != 0, onlyDeclared))
 	}
 	// C13(a): if anything had to be fetched the cache is rewritten with the whole active set (a write error is not fatal)
 	if len(client.names) > 0 && cache != nil {
